@@ -193,8 +193,9 @@ Definition placeholders_connected (m : model) : bool :=
                                 (seq 0 (length (c_vars (shell (snd pc))))))
           (all_comps (m_comps m)).
 
-(** the parser's test for repeated map_variables compares the two variable NAMES in sorted order and forgets
-    which side each belongs to: x--y and y--x between the same two components count as a repetition *)
+(** before fix C02-crossed-map-variables the parser's test for repeated map_variables compares the two variable
+    NAMES in sorted order and forgets which side each belongs to: x--y and y--x between the same two components
+    count as a repetition *)
 Definition edge_names (cs : list component) (e : eqv) : string * string :=
   sort2 (var_name_at cs (e_a e)) (var_name_at cs (e_b e)).
 
@@ -209,7 +210,8 @@ Definition eqv_ok (fixed : bool) (m : model) : bool :=
   forallb (fun e => vpath_valid (m_comps m) (e_a e) && vpath_valid (m_comps m) (e_b e)
                     && negb (path_eqb (fst (e_a e)) (fst (e_b e)))                      (* no connection of a component to itself *)
                     && str_ok fixed (e_mid e) && str_ok fixed (e_cid e)) (m_eqv m)
-  && edges_distinct (m_eqv m) && one_cid_per_pair (m_eqv m) && placeholders_connected m && no_crossed_names m.
+  && edges_distinct (m_eqv m) && one_cid_per_pair (m_eqv m) && placeholders_connected m
+  && (fixed || no_crossed_names m).
 
 Definition printableb (fixed : bool) (m : model) : bool :=
   str_ok fixed (m_name m) && str_ok fixed (m_id m) && str_ok fixed (m_encid m)
